@@ -86,8 +86,8 @@ Proof.
     unfold isq. rewrite Hv, Hq. destruct (match wq w with QN => false | _ => true end || starts_star (wv w)); [reflexivity|].
     apply IH. exact Hr.
 Qed.
-Lemma wl_process_plus : forall ws ws', wl ws ws' -> process_plus ws = process_plus ws'.
-Proof. intros ws ws' H. unfold process_plus. rewrite (wl_detect _ _ false H), (wl_wv _ _ H). reflexivity. Qed.
+Lemma wl_process_plus : forall alts ws ws', wl ws ws' -> process_plus alts ws = process_plus alts ws'.
+Proof. intros alts ws ws' H. unfold process_plus. rewrite (wl_detect _ _ false H), (wl_wv _ _ H). reflexivity. Qed.
 
 Lemma plus_values_line : forall vals l l' fl fl', plus_values vals l fl = LOk fl' -> plus_values vals l' fl = LOk fl'.
 Proof.
@@ -121,9 +121,9 @@ Proof.
   unfold is_plain_auto, is_plain_none in *.
   rewrite <- (wl_is_plain (s_ "auto") _ _ H), <- (wl_is_plain (s_ "none") _ _ H).
   destruct (is_plain (s_ "auto") ws); [exact Hc|].
-  rewrite <- (wl_process_plus _ _ H), <- (wl_length _ _ H).
+  cbv zeta in *. rewrite <- (wl_process_plus _ _ _ H), <- (wl_length _ _ H).
   destruct (mandatory opt || negb (is_plain (s_ "none") ws)); [|exact Hc].
-  destruct (process_plus ws).
+  destruct (process_plus (map (fun w => unstar (wv w)) m) ws).
   - destruct (plus_loop ws (init_flags m [])) as [fl|v l] eqn:E; [|discriminate].
     rewrite (wl_plus_loop _ _ _ _ H E). exact Hc.
   - destruct (normal_loop (length ws =? 1)%nat ig ws (init_flags m [])) as [fl|v l] eqn:E; [|discriminate].
